@@ -90,12 +90,15 @@ CHECKS = {
         'assumptions': T_ASSUME,
     },
     'C03': {
-        'units': lambda t: [u_atoms(t, 0), u_atoms(t, 1), u_conv(t), u_core(t), plain_unit('u_c15', 'units/c15.cpp', t), plain_unit('u_c16', 'units/c16.cpp', t)],
+        'units': lambda t: [u_atoms(t, 0), u_atoms(t, 1), u_conv(t), u_core(t), u_limits(t), plain_unit('u_c03g', 'units/c03g.cpp', t), plain_unit('u_c10', 'units/c10.cpp', t),
+                            plain_unit('u_c15', 'units/c15.cpp', t), plain_unit('u_c16', 'units/c16.cpp', t)],
         'rule': 'every library atom (ascii convenience rules, integer rules, raw_string, predicates, utf8::any, eol family, istring, bytes, everything) as root and '
                 'one level below each classical operator, all inputs over a per-family alphabet (length <=4..6) plus boundary numerals, on terminator-less '
                 'buffers with a PROT_NONE page directly after the input (pass 1) and directly before it (pass 2), eager and lazy; nested windows (rematch, minus) '
                 'from the convenience space; oracle: no guard-page fault, no peek_char(offset)/bump(count) reaching the end of the current window '
-                '(TAO_PEGTL_VERIF hook), cursor <= end at every rule entry/exit',
+                '(TAO_PEGTL_VERIF hook), cursor <= end at every rule entry/exit; byte-limited windows (limit_bytes at every offset) from the limits space; shipped grammars '
+                '(http incl. chunked bodies with extreme chunk sizes, json, uri, iri): all token strings of length <=4 (thorough 5) over per-grammar alphabets, guard page after / before, '
+                'eager / lazy; code-unit rules (utf8/16/32, uintN) with all truncations on guard-paged buffers (units of C10), integer and raw_string units (C15, C16)',
         'assumptions': T_ASSUME + ['reads through std::memcmp on current() are only seen by the guard page, i.e. for windows that end at the physical end of the buffer'],
     },
     'C18': {
